@@ -11,3 +11,33 @@ PROPS["C02"] = {
     "outside": "versions < -1 presented by clients; tombstoned pre-state (C01); more than one command",
     "assumptions": ["environment shims (HashMap as association vector, locks as hold counters, logical clock)"],
 }
+
+PROPS["C12"] = {
+    "level": "model_checking",
+    "harnesses": [
+        {"name": "c12_search_strict_n%d" % n, "fn": "c12_search", "params": {"quick": {"n": n, "strict": 1}}, "covers": (["search.some-record-at-or-after"] if n else [])} for n in range(0, 7)
+    ] + [
+        {"name": "c12_search_ties_n%d" % n, "fn": "c12_search", "params": {"quick": {"n": n, "strict": 0}}} for n in (2, 3, 5)
+    ] + [
+        {"name": "c12_search_strict_n%d" % n, "fn": "c12_search", "params": {"quick": {"n": n, "strict": 1}}, "thorough_only": True} for n in range(7, 11)
+    ] + [
+        {"name": "c12_label", "params": {"quick": {"n": 3}, "thorough": {"n": 4}}},
+        {"name": "c12_rotate", "params": {"quick": {"n": 7}, "thorough": {"n": 10}}},
+    ],
+    "bounds": {"quick": "single log file of n = 0..6 records with distinct (db,key), timestamps any u64 strictly increasing (n<=6) / non-decreasing (n in 2,3,5), since any u64; labelling: 3 records over 2 dbs x 2 keys x 4 kinds; rotation: 7 records with NUN_MAX_OP_LOG_SIZE=750 (3 records per file)",
+               "thorough": "n up to 10; labelling 4 records; rotation 10 records"},
+    "outside": "logs longer than the bound; more than 10 rotated files (remove_old_db_files); clock going backwards",
+    "assumptions": ["in-memory file system shim with exact BufWriter semantics", "creation time of a file = index of the FS operation that created it"],
+}
+PROPS["C15"] = {
+    "level": "model_checking",
+    "harnesses": [
+        {"name": "c15_events_2x2", "fn": "c15_events", "params": {"quick": {"events": 4, "ops": 2, "nodes": 2}, "thorough": {"events": 6, "ops": 2, "nodes": 2}}, "covers": ["ack.counted", "ack.duplicate-or-foreign"]},
+        {"name": "c15_events_3x3", "fn": "c15_events", "params": {"quick": {"events": 3, "ops": 3, "nodes": 3}, "thorough": {"events": 5, "ops": 3, "nodes": 3}}},
+        {"name": "c15_events_1x2", "fn": "c15_events", "params": {"quick": {"events": 5, "ops": 1, "nodes": 2}, "thorough": {"events": 7, "ops": 1, "nodes": 2}}},
+    ],
+    "bounds": {"quick": "event sequences of length 4 over 2 ops x 2 nodes, length 3 over 3 x 3, length 5 over 1 op x 2 nodes; each event register(op,node) or `ack op node` through process_request; each (op,node) registered at most once",
+               "thorough": "lengths 6 / 5 / 7"},
+    "outside": "re-registration of the same (op, node); membership changes; concurrent register/ack (both sides serialise on the pending_opps write lock)",
+    "assumptions": ["environment shims"],
+}
